@@ -356,7 +356,10 @@ pub fn gen_world(r: &mut Rng) -> Vec<Tree> {
     }
     let mut unsecure_tokens = 0u64;
     let steps = r.range(25, 90);
-    for _ in 0..steps {
+    // half of the histories are built around one adversarial scenario, played early (while the state is simple) and once
+    // more later; the other half mixes everything
+    let focus: Option<usize> = if r.chance(1, 2) { Some(*r.pick(&[18usize, 19, 20, 21, 22, 23, 24, 25, 26, 8, 12])) } else { None };
+    for step in 0..steps {
         let k = r.below(nclients as u64);
         let id = ids[k as usize];
         let mutk = |r: &mut Rng| -> (u64, u64, u64) {
@@ -373,7 +376,11 @@ pub fn gen_world(r: &mut Rng) -> Vec<Tree> {
             }
         };
         let w: [u32; 28] = [14, 16, 14, 3, 3, 6, 9, 9, 5, 2, 2, 2, 3, 3, 3, 2, 10, 2, 2, 3, 4, 3, 4, 3, 2, 3, 4, 3];
-        match r.weighted(&w) {
+        let case = match focus {
+            Some(f) if step == 3 || step == 14 => f,
+            _ => r.weighted(&w),
+        };
+        match case {
             0 => {
                 // time passes for everybody (mostly), or for one endpoint only
                 let dt = *r.pick(&[0u64, 100 * MS, 250 * MS, 251 * MS, SEC, 2 * SEC, 5 * SEC]);
